@@ -81,8 +81,8 @@ def run_case(job, ret_files=False):
         with open(box.path("work", "s.yaml"), "w") as f:
             f.write(f"input:\n  auto_exclude_directories_without_cmake: {str(auto).lower()}\n"
                     f"  follow_symlinks: {str(follow).lower()}\n")
-            if [k for k in rstopts if k != "input_via_link"]:
-                f.write("rst:\n" + "".join(f"  {k}: {v if not isinstance(v, bool) else str(v).lower()}\n" for k, v in rstopts.items() if k != "input_via_link"))
+            if [k for k in rstopts if k not in ("input_via_link", "input_spelling")]:
+                f.write("rst:\n" + "".join(f"  {k}: {v if not isinstance(v, bool) else str(v).lower()}\n" for k, v in rstopts.items() if k not in ("input_via_link", "input_spelling")))
         argv = ["-s", "s.yaml", "-o", "out"] + (["-r"] if recursive else []) + (["-p", prefix] if prefix else [])
         for p in rp:
             argv += ["-e", p]
@@ -91,7 +91,17 @@ def run_case(job, ret_files=False):
             # the input directory is given through a symbolic link with another name: it is named as it was given
             os.symlink("in", box.path("work", "alias-1.4"))
             inp = "alias-1.4"
-        r = box.run(argv + [inp])
+        spelling = rstopts.pop("input_spelling", None)
+        if spelling:
+            # the input directory named relative to a working directory inside (or beside) it: it is still the directory "in"
+            cwd, given = {"dot": ("work/in", "."), "dotslash": ("work/in", "./"), "updown": ("work/in", "../in"),
+                          "through": ("work", "in/../in"), "trail": ("work", "in/"), "dotdot": ("work/in/" + (tree.names[1] if len(parents) > 1 else ""), "..")}[spelling]
+            if spelling == "dotdot" and len(parents) < 2:
+                cwd, given = "work/in", "."
+            argv = [os.path.abspath(box.path("work", a)) if a in ("s.yaml", "out") else a for a in argv]
+            r = box.run(argv + [given], cwd=cwd)
+        else:
+            r = box.run(argv + [inp])
         if r["status"] != 0:
             msgs.append(f"error: run failed: {r['exc'] or r['stdout'][-200:]}")
             files = {}
@@ -220,6 +230,9 @@ def run(ctx):
                 jobs.append((parents, a, True, True, pre, [], None, False, ro))
         for recursive in (True, False):
             jobs.append((parents, a, recursive, True, None, [], None, False, (("input_via_link", True),)))
+            for sp in ("dot", "dotslash", "updown", "through", "trail", "dotdot"):
+                for pre in (None, "P"):
+                    jobs.append((parents, a, recursive, True, pre, [], None, False, (("input_spelling", sp),)))
     ctx.cov["bounds"] = {"tree_shapes": len(shapes), "runs": len(jobs)}
     ctx.sweep(run_case, jobs, space="trees x patterns x configurations", selftest=5)
     hjobs = []
